@@ -1,0 +1,48 @@
+//go:build verif
+
+// Contracts for package template, checked by /verif/govc (comment-only).
+package template
+
+// Every registered template has its node, soydoc and namespace.
+//@ pred registryOK(r *Registry) = forall(i, 0, len(r.Templates), r.Templates[i].Node != nil && r.Templates[i].Namespace != nil && r.Templates[i].Doc != nil)
+
+// Add cannot panic (the template preceding-node lookup Body[i-1] is in range
+// because a template is never the first node of a file that passed the
+// namespace check) and keeps the registry well formed.
+//@ func (*Registry).Add
+//@   props C06 C05
+//@   requires soyfile != nil && registryOK(r)
+//@   requires[parsed-file] forall(k, 0, len(soyfile.Body), typeis(soyfile.Body[k], *ast.TemplateNode) ==> unbox(soyfile.Body[k], *ast.TemplateNode).Body != nil)
+//@   modifies *
+//@   ensures[keeps-registry-well-formed] registryOK(r)
+//@   loop 0
+//@     invariant isnil(ns) && forall(k, 0, rangeindex + 1, typeis(soyfile.Body[k], *ast.SoyDocNode)) && -1 <= rangeindex
+//@   loop 1
+//@     invariant 0 <= i && len(soyfile.Body) > 0 && (typeis(soyfile.Body[0], *ast.SoyDocNode) || typeis(soyfile.Body[0], *ast.NamespaceNode)) && ns != nil && registryOK(r)
+//@     decreases len(soyfile.Body) - i
+//@   loop 2
+//@     invariant len(headerParams) == rangeindex + 1 && rangeindex + 1 <= len(tn.Body.Nodes) && registryOK(r) && sdn != nil
+
+//@ func (*Registry).Template
+//@   props C06
+//@   pure
+//@   requires registryOK(r)
+//@   ensures[found-is-registered] result1 ==> result0.Node != nil && result0.Namespace != nil && result0.Doc != nil
+
+//@ func (*Registry).LineNumber
+//@   props C06 C19
+//@   pure
+//@   ensures[positive-or-unknown] result >= 0
+
+//@ func (*Registry).ColNumber
+//@   props C06 C19
+//@   pure
+
+//@ func (*Registry).Filename
+//@   props C06 C19
+//@   pure
+
+//@ func sourceOffset
+//@   props C06 C19
+//@   pure
+//@   ensures[inside-source] 0 <= result && result <= len(src)
